@@ -78,6 +78,18 @@ def run(payload):
                         continue
                     if abs(val - cst) > 1e-9:
                         fails.append({"id": "interpolate_with_bc_not_constant_near_corner", "grid": repr(grid), "point": pt_.tolist(), "value": val, "constant": cst})
+            # points given in cell coordinates (centre of cell i at i + 1/2, GridBase.transform): centres return the cell value
+            from pde.backends.numba.grids import make_single_interpolator
+            try:
+                interp_cell = make_single_interpolator(grid, cell_coords=True)
+                for _k in range(2):
+                    idx = tuple(int(rng.integers(0, n)) for n in grid.shape)
+                    cases += 1
+                    got = float(interp_cell(f.data, np.array(idx, dtype=float) + 0.5))
+                    if abs(got - f.data[idx]) > 1e-9:
+                        fails.append({"id": "cell_coordinates_centre_value", "grid": repr(grid), "cell": list(idx), "got": got, "want": float(f.data[idx])})
+            except Exception as e:
+                fails.append({"id": "cell_coordinates_error", "grid": repr(grid), "error": f"{type(e).__name__}: {e}"})
             # insertion
             blo = np.array([b[0] for b in grid.axes_bounds])
             bhi = np.array([b[1] for b in grid.axes_bounds])
@@ -95,6 +107,21 @@ def run(payload):
                 if abs(g2.integral - amount) > 1e-9 * amount or not np.allclose(g1.data, g2.data, atol=1e-10):
                     fails.append({"id": "insert_compiled", "grid": repr(grid), "point": pt.tolist(), "amount": amount, "integral": float(g2.integral),
                                   "max_diff_to_interpreted": float(np.max(np.abs(g1.data - g2.data)))})
+                # points clearly outside along a non-periodic axis: interpreted and compiled inserter agree (both refuse)
+                if not all(grid.periodic):
+                    ax_ = [a for a in range(grid.num_axes) if not grid.periodic[a]][0]
+                    pout = pt.copy(); pout[ax_] = bhi[ax_] + 0.3 * grid.discretization[ax_]
+                    outcomes = []
+                    for how in ("interpreted", "compiled"):
+                        g5 = ScalarField(grid, 0.0)
+                        try:
+                            g5.insert(pout, amount) if how == "interpreted" else get_backend("numba").make_inserter(grid)(g5.data, pout, amount)
+                            outcomes.append("accepted")
+                        except Exception as e:
+                            outcomes.append(type(e).__name__)
+                    cases += 1
+                    if outcomes[0] != outcomes[1]:
+                        fails.append({"id": "insert_outside_the_domain_interpreted_vs_compiled", "grid": repr(grid), "point": pout.tolist(), "interpreted": outcomes[0], "compiled": outcomes[1]})
                 # the same inserter on the padded array, at a point whose support cells are all valid cells
                 pin = rng.uniform(blo + 0.5 * grid.discretization, bhi - 0.5 * grid.discretization) if all(n >= 2 for n in grid.shape) else None
                 if pin is not None:
@@ -105,7 +132,21 @@ def run(payload):
                     cases += 1
                     if abs(g3.integral - amount) > 1e-9 * amount or not np.allclose(g3.data, g4.data, atol=1e-10):
                         fails.append({"id": "insert_compiled_on_padded_array", "grid": repr(grid), "point": pin.tolist(), "amount": amount, "integral": float(g3.integral)})
-    return {"ok": True, "cases": cases, "failures": fails[:6]}
+    # interpolation with boundary conditions reaches the imposed value ON a wall, also within half a cell of a corner
+    from pde import CartesianGrid as _CG
+    gw = _CG([(0, 2), (0, 3)], [4, 6])
+    fw = ScalarField(gw, rng.uniform(5, 6, gw.shape))
+    for frac_y, kind in ((0.2, "bc_value_not_reached_on_the_wall_next_to_a_corner"), (1.7, "bc_value_not_reached_on_the_wall")):
+        pt_ = np.array([1e-9, frac_y]) * gw.discretization
+        cases += 1
+        val = float(fw.interpolate(pt_, bc={"value": 1.0}))
+        if abs(val - 1.0) > 1e-5:
+            fails.append({"id": kind, "grid": repr(gw), "point": pt_.tolist(), "value": val, "imposed": 1.0})
+    seen, out = set(), []
+    for f_ in fails:  # one example per kind first
+        if f_["id"] not in seen:
+            seen.add(f_["id"]); out.append(f_)
+    return {"ok": True, "cases": cases, "failures": (out + [f_ for f_ in fails if f_ not in out])[:8]}
 
 
 if __name__ == "__main__":
